@@ -460,5 +460,6 @@ def run(tier, seed, only=None, nproc=None):
                      "Wasserstein: unique dual optimum, d cost = sum u da + sum v db (envelope theorem) for the stubbed ot.emd2",
                      "exact real arithmetic"],
         bounds={"shapes(n,K)": QUICK_SHAPES if tier == "quick" else THOROUGH_SHAPES, "objectives": list(cg.CLASSES),
+                "long inputs": "N in {67, 300} (quick; Hellinger and MMD-ovo in thorough, +131, 1031) rows from 3 distinct symbolic rows, the last position holding a row of its own",
                 "clip job": "P in [0,1]^(n x K) rows summing to 1, all clipping patterns explored by forking"},
         stubs=["ot.emd2 -> uninterpreted (cost,u,v) with differential sum u da + sum v db"])
